@@ -9,6 +9,7 @@ import facts as FX
 import enc as ENC
 import nibble as NIB
 import absint as AI
+import acc as ACC
 from facts import tokens, fmt, short, walk, strip_sites, op_place, const_int
 
 # thorough tier: release configuration only — the dev-configuration pass reports the debug_assert! contract checks of the
@@ -487,6 +488,7 @@ def run(F, R, tier, cfg):
     checksum_rule(F, R)
     ENC.install()
     ENC.hostlen_rule(F, R)
+    ACC.run(F, R, {}, "enc", 88)        # 94 sites counted on 8f07ce4 (84 in trait encoders, 10 in CommonHeader::encode_unchecked)
     entries = []
     for nm in ("try_encode", "try_encode_to_vec"):
         entries += [p for p in F.fns if p.endswith("::" + nm) and p.startswith("sciparse::") and not T.is_test_support(p)]
